@@ -718,6 +718,11 @@ class Exec:
         if re.fullmatch(r'<\w+ as (typenum::)?Unsigned>::USIZE', c):
             mm = re.match(r'<(\w+) as', c)
             return s.consts.get(mm.group(1), s.N)
+        mm = re.fullmatch(r'<<(\w+) as (?:core::ops::)?(Sub|Add)<(?:typenum::)?(\w+)>>::Output as (?:typenum::)?Unsigned>::USIZE', c)
+        if mm:      # type-level difference / sum of two lengths
+            val = lambda nm: bv(1) if nm == 'B1' else s.consts.get(nm, s.N)
+            a, b = val(mm.group(1)), val(mm.group(3))
+            return a - b if mm.group(2) == 'Sub' else a + b
         if c in ('()', 'LengthError'):
             return UNIT
         mz = re.match(r'ZeroSized: (\{closure@[^}]+\})$', c)
